@@ -7,7 +7,8 @@
 set -u
 export GOFLAGS=-mod=mod GOPROXY=off
 unset GOSUMDB GOTOOLCHAIN 2>/dev/null || true
-ROOT=/verif
+ROOT="$(cd "$(dirname "${BASH_SOURCE[0]}")" && pwd)"
+export VERIF_ROOT="$ROOT"
 H=$ROOT/harness
 cd "$H" || exit 2
 MODARGS=()
